@@ -22,6 +22,8 @@ from ..ctx import CONN, full_slice_element, is_call, is_field, loop_of_element, 
 from ..expr import show, strip_old, walk
 from ..pathcond import PathA, calls_to, field_stores
 
+from ..roles import upvar_index  # noqa: E402
+
 LEVEL = "other"
 RL = "srtla_send::sender::reload::"
 TXT = RL + "analyze_ip_reload_text"
@@ -265,7 +267,7 @@ def d4_paired_purge(ctx):
     fa = ctx.fa(f)
     pa = ctx.pa(f)
     cfg = ctx.cfg(f)
-    up = {n: i for i, n in f.upvar_names.items()}
+    up = {n: upvar_index(f, n) for n in ("connections", "new_ips", "last_selected_idx")}
     CONNS = ("upvar", up.get("connections"))
     ret = [(bb, t) for (bb, t) in f.calls() if t["f"].get("path", "").endswith("SmallVec::<T, N>::retain")]
     rm_seq = calls_to(f, stable=ST + "::remove_connection")
@@ -409,7 +411,7 @@ def d5_add_once(ctx):
         return
     fa = ctx.fa(f)
     cfg = ctx.cfg(f)
-    up = {n: i for i, n in f.upvar_names.items()}
+    up = {n: upvar_index(f, n) for n in ("connections", "new_ips", "last_selected_idx")}
     CONNS = ("upvar", up.get("connections"))
     NEW = ("upvar", up.get("new_ips"))
     cr = calls_to(f, stable=CREATE)
@@ -531,7 +533,7 @@ def d5_add_once(ctx):
         if ok:
             b2, t2 = cu_calls[0]
             ip = strip_old(gfa.val_operand(t2["args"][0], (b2, len(g.blocks[b2]["stmts"]))))
-            gup = {nm: i for i, nm in g.upvar_names.items()}
+            gup = {"ips": upvar_index(g, "ips")}
             ok = full_slice_element(ip, ("upvar", gup.get("ips"))) is not None
             if ok:
                 o, d = every_iteration_reaches(ctx.w, g, gfa, ip, b2, lambda a: False)
